@@ -43,6 +43,9 @@ func (s *Protocol) Invoke(ctx context.Context, req []byte) (rsp []byte) {
 	rspPackage := requestf.ResponsePacket{}
 	is := codec.NewReader(req[4:])
 	reqPackage.ReadFrom(is)
+	// The transport reads the packet type from the Current to decide whether to write a response. Record it before
+	// dispatching: when the handle timeout gives up on this call, a one-way request must still not be answered.
+	current.SetPacketTypeFromContext(ctx, reqPackage.CPacketType)
 
 	recvPkgTs, ok := current.GetRecvPkgTsFromContext(ctx)
 	if !ok {
